@@ -4,9 +4,9 @@ CONSTANTS
   K = 2
   NF = 3
   NG = 0
-  PF = "p1s"
+  PF = "p1w"
   TF = "t12o"
-  PG = "p1s"
+  PG = "p1w"
   TG = "t12o"
   LAYOUTS = {"dfs"}
   EMIT = TRUE
